@@ -58,6 +58,12 @@ CHECKS = {
  "C03": dict(engine="mon-sched", cat="exploration", tech="controlled-schedule execution of the real code at hooked lock sites (exhaustive DFS re-execution for small programs, seeded random/priority schedules for larger ones) with a relative-atomicity oracle; Go race detector on perturbed free-running executions, Auditd.Read wiring and the -race daemon",
    text="Nine small concurrent programs on one tracker are explored exhaustively at lock-acquisition granularity: the emitted events must equal what some sequential merge of the same operations produces when run against the same code, and no schedule may deadlock. Larger programs run under seeded random and priority schedules. Under -race the same programs run free with delays injected at the lock sites, Auditd.Read gets both halves of a session at the same instant, and the -race daemon is driven with concurrent writers; any race report is a violation.",
    note="Schedule points are the hooked lock sites only; exhaustive at that granularity, sound for data-race-free code.", ref="4 C03, 3.1"),
+ "C18": dict(engine="mon-health", cat="exploration", tech="sequential reference-model monitor (bounded-exhaustive), controlled-schedule exploration at hooked lock sites, porcupine linearizability checking of recorded histories, -race perturbed histories, logical-clock check of WaitForReady",
+   text="Every Add/OnReady/Get sequence of the stated length against the 15-line map model; five concurrent programs explored exhaustively at lock granularity and 8-goroutine free-running histories under -race: every /readyz response is checked for internal consistency (code vs overall vs components) and every history for linearizability against the sequential map; WaitForReady must not fire before the last component was marked ready and must yield the context error when cancelled first.",
+   note="Component names never equal the reserved key 'overall'.", ref="4 C18"),
+ "C20": dict(engine="mon-dirreader", cat="exploration", tech="file-system-history oracle over an in-memory fs and injected fsnotify events (build-tag constructor), bounded-exhaustive + seeded; real fs for start-up order; -race",
+   text="Every operation sequence of the stated length over append/partial/complete/rotate/truncate for four start-up states, start-up directories with 0..1000 rotated files, seeded random histories with long lines; after every operation (event + sentinel barrier) the delivered lines must equal the complete lines the harness wrote, in order. The real StartLogDirReader is run on real directories for the start-up order.",
+   note="Each change is followed by its event, accepted before the next change; truncation is a Write event, rotation is Rename then Create.", ref="4 C20, 3.2"),
 }
 
 NOT_YET = {
